@@ -20,8 +20,8 @@ Checks == {Cfg.checks[i] : i \in DOMAIN Cfg.checks}
 Devs == {Cfg.devs[i] : i \in DOMAIN Cfg.devs}
 On(g) == g \in Checks
 
-VARIABLES l, cnt, curop, taint, rejoined, used
-tvars == <<l, cnt, curop, taint, rejoined, used>>
+VARIABLES l, cnt, curop, taint, rejoined, conf, used
+tvars == <<l, cnt, curop, taint, rejoined, conf, used>>
 E == Rec[l]
 
 Zero == [forward |-> 0, copy |-> 0, ack |-> 0, fanout |-> 0]
@@ -74,9 +74,12 @@ Budget(S, c) ==
 
 NoOp == [op |-> "-", d |-> "", k |-> "", v |-> "", ver |-> -1, n |-> 0, at_secondary |-> FALSE]
 
-TraceInit == l = 1 /\ cnt = Zero /\ curop = NoOp /\ taint = {} /\ rejoined = {} /\ used = {} /\ TLCSet(1, 0)
+TraceInit == l = 1 /\ cnt = Zero /\ curop = NoOp /\ taint = {} /\ rejoined = {} /\ conf = TRUE /\ used = {} /\ TLCSet(1, 0)
 
+(* `conf': every catch-up the primary built in this run conforms to NunCatchUp (decided by *)
+(* Trace_CatchUp beforehand; runs without such calls, or of other checks, carry no flag)      *)
 Reset == /\ E.ev = "reset" /\ cnt' = Zero /\ curop' = NoOp /\ taint' = {} /\ rejoined' = {} /\ used' = {}
+         /\ conf' = (IF "conf" \in DOMAIN E THEN E.conf ELSE TRUE)
          /\ ((used # {}) => PrintT(<<"USED", Rec[l-1].run, used>>))
 
 Formed ==
@@ -84,19 +87,19 @@ Formed ==
   /\ E.quiet
   /\ (On("ELECT") => ElectionOutcome(E.state)) = TRUE
   /\ (On("CONV") => Converged(E.state)) = TRUE
-  /\ cnt' = Zero /\ UNCHANGED <<curop, taint, rejoined, used>>
+  /\ cnt' = Zero /\ UNCHANGED <<curop, taint, rejoined, conf, used>>
 
 Client ==
   /\ E.ev = "client"
   /\ curop' = E.op
-  /\ UNCHANGED <<cnt, taint, rejoined, used>>
+  /\ UNCHANGED <<cnt, taint, rejoined, conf, used>>
 
 Msg ==
   /\ E.ev = "msg"
   /\ cnt' = [cnt EXCEPT ![IF E.kind \in {"forward", "copy", "ack"} THEN E.kind ELSE "fanout"] =
                  IF E.kind \in {"forward", "copy", "ack"} THEN @ + 1
                  ELSE IF E.kind = "copy_by_secondary" THEN @ + 1 ELSE @]
-  /\ UNCHANGED <<curop, taint, rejoined, used>>
+  /\ UNCHANGED <<curop, taint, rejoined, conf, used>>
 
 QuiesceOK ==
   /\ E.ev \in {"quiesce", "end"}
@@ -105,12 +108,12 @@ QuiesceOK ==
   /\ (On("CONV") => Converged(E.state)) = TRUE
   /\ (On("PEND") => NothingPending(E.state)) = TRUE
   /\ (On("ELECT") => ElectionOutcome(E.state)) = TRUE
-  /\ cnt' = Zero /\ UNCHANGED <<curop, taint, rejoined, used>>
+  /\ cnt' = Zero /\ UNCHANGED <<curop, taint, rejoined, conf, used>>
 
 Restarted ==
   /\ E.ev = "restarted"
   /\ rejoined' = rejoined \cup {E.node}
-  /\ UNCHANGED <<cnt, curop, taint, used>>
+  /\ UNCHANGED <<cnt, curop, taint, conf, used>>
 
 (* ---------------- known findings (C05) ---------------- *)
 ConvergedExcept(S, X) ==
@@ -126,9 +129,10 @@ Dev_ResyncDiverges ==
   /\ "Dev_ResyncDiverges" \in Devs
   /\ E.ev \in {"quiesce", "end"} /\ E.quiet /\ On("CONV")
   /\ rejoined # {}
+  /\ conf       \* the lines the primary sent are those of the recorded catch-up (NunCatchUp)
   /\ Converged(E.state) = FALSE
   /\ Primaries(E.state) # {}
-  /\ cnt' = Zero /\ UNCHANGED <<curop, taint, rejoined>>
+  /\ cnt' = Zero /\ UNCHANGED <<curop, taint, rejoined, conf>>
   /\ used' = used \cup {"Dev_ResyncDiverges"}
 
 (* a rejoining node is told about itself, dials itself and asks itself for the operations *)
@@ -137,7 +141,7 @@ Dev_ResyncDiverges ==
 Dev_SelfSyncPanic ==
   /\ "Dev_SelfSyncPanic" \in Devs
   /\ E.ev = "loop_panic" /\ E.loop = "sup" /\ E.self_sync /\ E.node \in rejoined
-  /\ UNCHANGED <<cnt, curop, taint, rejoined>>
+  /\ UNCHANGED <<cnt, curop, taint, rejoined, conf>>
   /\ used' = used \cup {"Dev_SelfSyncPanic"}
 
 (* ---------------- known findings (C04) ---------------- *)
@@ -152,7 +156,7 @@ Dev_RemoveOnSecondaryLocalOnly ==
   /\ taint' = taint \cup {OpKey}
   /\ (\A p \in Primaries(E.state) : \A n \in Alive(E.state) : SameDataBut(E.state[n].data, E.state[p].data, taint')) = TRUE
   /\ (On("BUDGET") => Budget(E.state, cnt)) = TRUE
-  /\ cnt' = Zero /\ UNCHANGED <<curop, rejoined>>
+  /\ cnt' = Zero /\ UNCHANGED <<curop, rejoined, conf>>
   /\ used' = used \cup {"Dev_RemoveOnSecondaryLocalOnly"}
 
 (* a plain / versioned write issued on a secondary is applied there, forwarded, and    *)
@@ -166,7 +170,7 @@ Dev_SecondaryWriteAppliedLocally ==
   /\ taint' = taint \cup {OpKey}
   /\ (\A p \in Primaries(E.state) : \A n \in Alive(E.state) : SameDataBut(E.state[n].data, E.state[p].data, taint')) = TRUE
   /\ (On("BUDGET") => Budget(E.state, cnt)) = TRUE
-  /\ cnt' = Zero /\ UNCHANGED <<curop, rejoined>>
+  /\ cnt' = Zero /\ UNCHANGED <<curop, rejoined, conf>>
   /\ used' = used \cup {"Dev_SecondaryWriteAppliedLocally"}
 
 (* ---------------- known findings (C07) ---------------- *)
@@ -175,7 +179,7 @@ ElectStep(name, cond) ==
   /\ E.ev \in {"formed", "quiesce", "end"} /\ E.quiet /\ On("ELECT")
   /\ ElectionOutcome(E.state) = FALSE
   /\ cond = TRUE
-  /\ cnt' = Zero /\ UNCHANGED <<curop, taint, rejoined>>
+  /\ cnt' = Zero /\ UNCHANGED <<curop, taint, rejoined, conf>>
   /\ used' = used \cup {name}
 
 (* one primary, the oldest, every other node secondary -- but some node's member map    *)
@@ -199,7 +203,7 @@ Dev_ResolvePingPong ==
   /\ "Dev_ResolvePingPong" \in Devs
   /\ E.ev \in {"quiesce", "end"} /\ ~E.quiet
   /\ curop.op = "resolve"
-  /\ cnt' = Zero /\ UNCHANGED <<curop, taint, rejoined>>
+  /\ cnt' = Zero /\ UNCHANGED <<curop, taint, rejoined, conf>>
   /\ used' = used \cup {"Dev_ResolvePingPong"}
 
 TraceNext == l <= Len(Rec) /\ l' = l + 1 /\
